@@ -1,12 +1,15 @@
 """Independent restatement of property C02 on concrete observations (search for a failing input only).
 
 oracle(case, res) -> None | (class_key, message)
-  case : the generated input (vf/impl/c02_gen.py), res : {route: {"stages": [...], "script": [...]}} from the driver.
-Written from the property sentence, by brute force on the finished object; shares no code with the Coq model.
+  case : the generated input (vf/impl/c02_gen.py), res : {route: {...}} from the driver.
+Written from the property sentence (sets, counts, first occurrences), not by replaying mesh_data.py; it shares no code with
+the Coq model.  Every rebuild is re-checked from the previous observed stage and the edits applied to it.
 """
 import json
 
 CLASSES = ["PointCloud", "PolyLine", "SurfaceMesh", "VolumeMesh"]
+CLEARS = {"clear_fc", "clear_cc", "clear_cf"}
+RAW_ROUTES = ("list", "tuple", "numpy", "append")
 
 
 def skey(x):
@@ -33,7 +36,18 @@ def attr_value(a, i):
     return 0 if a["default"] is None else int(a["default"])
 
 
-def check_stage0(case, o, route):
+def first_occurrences(seq):
+    seen, out = set(), []
+    for x in seq:
+        if tuple(x) not in seen:
+            seen.add(tuple(x))
+            out.append(list(x))
+    return out
+
+
+def check_stage0(case, o, route, pads_1d=False):
+    """`case` = the raw data this construction started from (verts in quarter units, edges, faces, cells, eattrs, and
+    optionally pre-filled corner containers "fc"/"cc"/"cf"), `o` = the finished object."""
     cf, ce = case["cfg"]
     verts, edges, faces, cells = case["verts"], case["edges"], case["faces"], case["cells"]
     N = len(verts)
@@ -49,10 +63,21 @@ def check_stage0(case, o, route):
         if o["err"] == "KeyError" and not cf and missing:
             return None  # completion switched off and a cell's face was not supplied
         return ("raises/" + o["err"], "construction raised %s (%s)" % (o["err"], o.get("msg", "")))
-    # ---- vertices: 3-D, the input padded with zeros
-    want_v = [list(v) + [0] * (3 - len(v)) for v in verts]
-    if o["verts"] != want_v or not o["vec_ok"]:
-        return ("vertices", "vertices are %s, expected the 3-D points %s (as Vec)" % (o["verts"][:4], want_v[:4]))
+    # ---- vertices: 3-D floats, the given points, 2-D ones padded with 0 (1-D ones only by from_arrays; a raw container
+    #      given 1-D or >3-D points is outside what the property promises: compared with the model only)
+    want_v = []
+    for v in verts:
+        w = list(v)
+        if len(w) == 2 or (pads_1d and len(w) < 3):
+            w = w + [0] * (3 - len(w))
+        want_v.append(w)
+    if o["verts"] != want_v:
+        return ("vertices", "vertices are %s (quarter units), expected %s: the given points, 2-D ones padded with z=0"
+                % (o["verts"][:4], want_v[:4]))
+    if any(len(v) in (2, 3) for v in verts) and any(len(w) != 3 for v, w in zip(verts, o["verts"]) if len(v) in (2, 3)):
+        return ("vertices", "a 2-D / 3-D input point did not become a 3-D vertex: %s" % o["verts"][:4])
+    if not o["vec_ok"] or not o.get("float_ok", True):
+        return ("vertex-type", "vertices are not float Vec objects")
     # ---- class = highest-dimensional element present (or the override)
     has_valid_edge = any(valid(e) for e in edges)
     d = 3 if cells else 2 if faces else 1 if has_valid_edge else 0
@@ -63,6 +88,10 @@ def check_stage0(case, o, route):
     for k, need in (("edges", 1), ("faces", 2), ("fc", 2), ("cells", 3), ("cc", 3), ("cf", 3)):
         if (o[k] is not None) != (d >= need):
             return ("class", "a %s %s container %s" % (o["class"], "lacks the" if d >= need else "has a", k))
+    # ---- index rows are handed back in one form, whatever form they came in
+    for k, tn in (o.get("types") or {}).items():
+        if any(t not in ("tuple[int]", "tuple[]") for t in tn):
+            return ("row-type", "%s rows are handed back as %s, not as tuples of Python ints" % (k, tn))
     fin_faces = o["faces"] if o["faces"] is not None else []
     fin_cells = o["cells"] if o["cells"] is not None else []
     fin_edges = o["edges"] if o["edges"] is not None else []
@@ -78,38 +107,54 @@ def check_stage0(case, o, route):
         for c in cells:
             cellkeys += cell_face_sets(c)
         if cf and cells:
+            fk = {skey(f) for f in fin_faces}
             for c in cells:
                 for i, k in enumerate(cell_face_sets(c)):
-                    if k not in {skey(f) for f in fin_faces}:
+                    if k not in fk:
                         return ("faces-from-cells", "face %d of cell %s (vertices %s) is missing from the faces" % (i, c, list(k)))
             ak = [skey(f) for f in added]
             if len(set(ak)) != len(ak) or any(k in declared for k in ak):
                 return ("faces-from-cells", "a face shared by two cells (or already declared) was added twice: %s" % added)
             if any(k not in cellkeys for k in ak):
                 return ("faces-from-cells", "an added face is not a face of any cell: %s" % added)
+            for f in added:
+                want_ar = 3 if any(len(c) == 4 and skey(f) in cell_face_sets(c) for c in cells) else 4
+                if len(f) != want_ar and len(set(f)) == len(f):
+                    return ("faces-from-cells", "added face %s is not a %s" % (f, "triangle" if want_ar == 3 else "quad"))
         elif added:
             return ("faces-from-cells", "faces were added although completion is off / there is no cell: %s" % added)
-    # ---- edges
+    # ---- edges: stated on sets, counts and first occurrences
+    dup_finding = None
     if d >= 1:
-        if not o["shape_ok"]:
-            return ("edge-shape", "an edge is not stored as a 2-tuple")
         for e in fin_edges:
             if not (0 <= e[0] < e[1] < N):
                 return ("edge-range", "edge %s is not (a,b) with 0 <= a < b < %d" % (e, N))
-        decl = [list(skey(e)) for e in edges if valid(e)]
-        new = []
+        decl_keys = [list(skey(e)) for e in edges if valid(e)]          # surviving declared edges, in declared order
+        side_keys = []
         if ce and fin_faces:
-            seen = {skey(e) for e in edges}
             for f in fin_faces:
-                for i in range(len(f)):
-                    s = skey((f[i], f[(i + 1) % len(f)]))
-                    if s not in seen:
-                        seen.add(s)
-                        if valid(s):
-                            new.append(list(s))
-        if fin_edges != decl + new:
-            return ("edge-list", "edges are %s, expected the declared valid edges %s followed by each new face side once %s"
-                    % (fin_edges, decl, new))
+                side_keys += [list(skey((f[i], f[(i + 1) % len(f)]))) for i in range(len(f))]
+        side_keys = [s for s in side_keys if valid(s)]
+        want_set = {tuple(e) for e in decl_keys} | {tuple(s) for s in side_keys}
+        got_set = {tuple(e) for e in fin_edges}
+        if got_set != want_set:
+            return ("edge-set", "the edge set is %s; declared edges plus face sides give %s (missing %s, extra %s)"
+                    % (sorted(got_set), sorted(want_set), sorted(want_set - got_set), sorted(got_set - want_set)))
+        nd = len(decl_keys)
+        if fin_edges[:nd] != decl_keys:
+            return ("edge-order", "the surviving declared edges %s are not the first %d edges %s" % (decl_keys, nd, fin_edges[:nd]))
+        new = fin_edges[nd:]
+        declared_set = {tuple(e) for e in decl_keys}
+        want_new = [s for s in first_occurrences(side_keys) if tuple(s) not in declared_set]
+        if new != want_new:
+            return ("edge-sides", "after the declared edges come %s; each new side of each face once, in face order, is %s" % (new, want_new))
+        if len(got_set) != len(fin_edges):
+            dups = sorted({tuple(e) for e in fin_edges if fin_edges.count(e) > 1})
+            if all(decl_keys.count(list(e)) > 1 for e in dups):
+                dup_finding = ("edge-list/duplicate-declared",
+                               "edges %s occur more than once in the edge list: they were declared more than once %s" % (dups, edges))
+            else:
+                return ("edge-dup", "edges %s occur more than once in %s" % (dups, fin_edges))
         # ---- attributes: a value survives iff its edge survives, at the compacted index
         kept = [i for i, e in enumerate(edges) if valid(e)]
         names = [a["name"] for a in o["eattrs"]]
@@ -134,14 +179,14 @@ def check_stage0(case, o, route):
                 if "hard_edges" not in names:
                     return ("hard-edges", "no hard_edges attribute although edges were completed from faces")
                 hv = o["eattrs"][names.index("hard_edges")]["vals"]
-                want = [1] * len(decl) + [0] * len(new)
+                want = [1] * nd + [0] * len(new)
                 if hv != want:
-                    return ("hard-edges", "hard_edges flags are %s, the declared edges are exactly the first %d of %d" % (hv, len(decl), len(hv)))
+                    return ("hard-edges", "hard_edges flags are %s, the declared edges are exactly the first %d of %d" % (hv, nd, len(hv)))
             elif "hard_edges" in names:
                 hv = o["eattrs"][names.index("hard_edges")]["vals"]
-                if any(hv[len(decl):]):
+                if any(hv[nd:]):
                     return ("hard-edges", "an edge the caller did not declare is flagged hard: %s" % hv)
-    # ---- corner records
+    # ---- corner records: one per incidence, in element order, element and owner
     if d >= 2:
         we = [v for f in fin_faces for v in f]
         wa = [i for i, f in enumerate(fin_faces) for _ in f]
@@ -174,10 +219,7 @@ def check_stage0(case, o, route):
                 elif sorted(got) != sorted(ks):
                     return ("cell-faces", "cell %s: cell_faces lists faces %s, its six quads are %s" % (c, got, ks))
                 off += len(ks)
-    return None
-
-
-CLEARS = {"clear_fc", "clear_cc", "clear_cf"}
+    return dup_finding
 
 
 def edited_input(case, prev, edits):
@@ -225,49 +267,89 @@ def edited_input(case, prev, edits):
             "dim": case.get("dim")}
 
 
-def oracle(case, res):
+def script_failure(case, route, x):
+    """later behaviour: no operation may raise (the scripts only ask what the built mesh must be able to answer)"""
+    for q, a in zip(case.get("script", []), x.get("script", [])):
+        if a[0] == "err":
+            return ("later-raises/%s/%s" % (q[0], a[1]), "[%s rows] %s%s raised %s: %s" % (route, q[0], q[1:], a[1], a[2] if len(a) > 2 else ""))
+    return None
+
+
+def oracle_all(case, res):
+    """all failures of the case, in the order of the property sentence; the duplicate-declared finding last"""
+    fails = []
     base = None
     for route in case["routes"]:
         x = res.get(route)
         if x is None or "crash" in x:
-            return ("driver", "route %s: %s" % (route, (x or {}).get("crash", "no result")))
+            fails.append(("driver", "route %s: %s" % (route, (x or {}).get("crash", "no result"))))
+            continue
+        if "skip" in x:
+            continue
         st = x["stages"]
-        m = check_stage0(case, st[0], route)
+        inp = case
+        if "input" in x:    # a file route: the raw input is what the importer produced
+            inp = dict(x["input"], cfg=case["cfg"], dim=case.get("dim"))
+        m = check_stage0(inp, st[0], route, pads_1d=(route == "from_arrays"))
         if m:
-            return (m[0], "[%s rows] %s" % (route, m[1]))
+            fails.append((m[0], "[%s] %s" % (route, m[1])))
+            if not m[0].startswith("edge-list/duplicate-declared"):
+                continue
         edits = case.get("edits") or []
+        stop = False
         for i, s in enumerate(st[1:], 1):
             es = edits[i - 1] if i - 1 < len(edits) else []
             prev = st[i - 1]
             if "err" in prev:
                 break
             if all(e[0] in CLEARS for e in es) and json.dumps(s, sort_keys=True) != json.dumps(prev, sort_keys=True):
-                # nothing but (possibly) emptied corner containers: building again must change nothing
                 diff = [k for k in s if s.get(k) != prev.get(k)] if "err" not in s else ["raised " + s["err"]]
-                return ("rebuild/" + (diff[0] if diff else "?"),
-                        "[%s rows] building again from the built mesh (pass %d, edits %s) changed %s: %s -> %s"
-                        % (route, i, es, diff, {k: prev.get(k) for k in diff}, {k: s.get(k) for k in diff}))
-            # every rebuild: the whole property sentence, recomputed by brute force from the edited data
+                fails.append(("rebuild/" + (diff[0] if diff else "?"),
+                              "[%s] building again from the built mesh (pass %d, edits %s) changed %s: %s -> %s"
+                              % (route, i, es, diff, {k: prev.get(k) for k in diff}, {k: s.get(k) for k in diff})))
+                stop = True
+                break
             m = check_stage0(edited_input(case, prev, es), s, route)
             if m:
-                return ("rebuild-" + m[0], "[%s rows] pass %d after edits %s: %s" % (route, i, es, m[1]))
-        for q, a in zip(case.get("script", []), x["script"]):
-            if a[0] == "other":
-                return ("query-type", "[%s rows] query %s answered %s" % (route, q, a[1]))
-        if route == "from_arrays" and "err" in st[0]:
-            continue   # from_arrays legitimately rejects what the raw route normalises (index >= n, width > 3)
-        if route != "from_arrays" or len(case["verts"][0] if case["verts"] else [0, 0, 0]) == 3:
-            nomsg = [{k: v for k, v in s.items() if k != "msg"} for s in x["stages"]]
+                fails.append(("rebuild-" + m[0] if not m[0].startswith("edge-list/") else m[0],
+                              "[%s] pass %d after edits %s: %s" % (route, i, es, m[1])))
+                if not m[0].startswith("edge-list/duplicate-declared"):
+                    stop = True
+                    break
+        if stop:
+            continue
+        m = script_failure(case, route, x)
+        if m:
+            fails.append(m)
+            continue
+        # container independence: every raw route (and from_arrays when it accepts the data) gives the very same
+        # stages - row types included - and the very same typed answers afterwards
+        comparable = route in RAW_ROUTES or (route == "from_arrays" and "err" not in st[0]
+                                             and len(case["verts"][0] if case["verts"] else [0, 0, 0]) >= 2)
+        if comparable:
+            nomsg = [{k: v for k, v in s.items() if k != "msg"} for s in st]
             sig = json.dumps({"stages": nomsg, "script": x["script"]}, sort_keys=True)
             if base is None:
                 base = (route, sig, x)
             elif sig != base[1]:
-                what = "later queries" if json.dumps(x["script"]) != json.dumps(base[2]["script"]) else "stages"
-                detail = ""
-                if what == "later queries":
+                detail, what = "", "stages"
+                if json.dumps(x["script"]) != json.dumps(base[2]["script"]):
+                    what = "later behaviour"
                     for q, a, b2 in zip(case["script"], base[2]["script"], x["script"]):
                         if a != b2:
-                            detail = " query %s: %s vs %s" % (q, a, b2)
+                            detail = " %s%s: %s vs %s" % (q[0], q[1:], json.dumps(a)[:200], json.dumps(b2)[:200])
                             break
-                return ("container-dependence/" + what, "%s rows and %s rows give different %s.%s" % (base[0], route, what, detail))
-    return None
+                else:
+                    for sa, sb in zip(base[2]["stages"], st):
+                        d = [k for k in sb if k != "msg" and sb.get(k) != sa.get(k)]
+                        if d:
+                            detail = " %s: %s vs %s" % (d[0], json.dumps(sa.get(d[0]))[:200], json.dumps(sb.get(d[0]))[:200])
+                            break
+                fails.append(("container-dependence/" + what, "%s rows and %s rows give different %s.%s" % (base[0], route, what, detail)))
+    fails.sort(key=lambda f: f[0].startswith("edge-list/duplicate-declared"))
+    return fails
+
+
+def oracle(case, res):
+    f = oracle_all(case, res)
+    return f[0] if f else None
